@@ -414,4 +414,353 @@ theorem flatBlock_complete : ∀ (ls : List Ex) (f : PFrame) (bd : List Name),
     | inl hy => exact r1 y (s3 y hy)
     | inr hy => exact r2 y hy
 
+/-! ### beyond flat bodies: inline `if` and calls (no nested function literal)
+
+`Step f f' rd`: what parsing a piece of an expression list does to the parser's frame, stated for the
+names that are not pending assignment targets at entry: recorded non-local accesses are never lost
+and every read in `rd` of a name that is not yet assigned gets recorded. -/
+
+/-- `y` is recorded (or will be at the next finalize) as a non-local access -/
+def Recd (f : PFrame) (y : Name) : Prop := y ∈ f.nonLocals ∨ (y ∈ f.pendAcc ∧ y ∉ f.assigned)
+
+structure Step (f f' : PFrame) (rd : List Name) : Prop where
+  asg_sub : ∀ y, y ∈ f'.assigned → y ∈ f.assigned ∨ y ∈ f.pendAsg
+  asg_mono : ∀ y, y ∈ f.assigned → y ∈ f'.assigned
+  pasg_sub : ∀ y, y ∈ f'.pendAsg → y ∈ f.pendAsg
+  all_keep : ∀ y, (y ∈ f.assigned ∨ y ∈ f.pendAsg) → (y ∈ f'.assigned ∨ y ∈ f'.pendAsg)
+  rec_keep : ∀ y, y ∉ f.pendAsg → Recd f y → Recd f' y
+  rec_new : ∀ y, y ∉ f.pendAsg → y ∈ rd → y ∉ f.assigned → Recd f' y
+  nl_mono : ∀ y, y ∈ f.nonLocals → y ∈ f'.nonLocals
+
+theorem Step.refl (f : PFrame) : Step f f [] :=
+  ⟨fun _ h => Or.inl h, fun _ h => h, fun _ h => h, fun _ h => h, fun _ _ h => h,
+   fun _ _ h => (by cases h), fun _ h => h⟩
+
+theorem Step.trans {f f1 f2 : PFrame} {r1 r2 : List Name} (s1 : Step f f1 r1) (s2 : Step f1 f2 r2) :
+    Step f f2 (r1 ++ r2) where
+  asg_sub y h := by
+    rcases s2.asg_sub y h with h | h
+    · exact s1.asg_sub y h
+    · exact Or.inr (s1.pasg_sub y h)
+  asg_mono y h := s2.asg_mono y (s1.asg_mono y h)
+  pasg_sub y h := s1.pasg_sub y (s2.pasg_sub y h)
+  all_keep y h := s2.all_keep y (s1.all_keep y h)
+  rec_keep y hp h := s2.rec_keep y (fun hh => hp (s1.pasg_sub y hh)) (s1.rec_keep y hp h)
+  rec_new y hp hr ha := by
+    have hp1 : y ∉ f1.pendAsg := fun hh => hp (s1.pasg_sub y hh)
+    rcases List.mem_append.mp hr with hr | hr
+    · exact s2.rec_keep y hp1 (s1.rec_new y hp hr ha)
+    · refine s2.rec_new y hp1 hr (fun hh => ?_)
+      rcases s1.asg_sub y hh with h | h
+      · exact ha h
+      · exact hp h
+  nl_mono y h := s2.nl_mono y (s1.nl_mono y h)
+
+theorem Step.access (f : PFrame) (x : Name) : Step f (f.access x) [x] where
+  asg_sub _ h := Or.inl h
+  asg_mono _ h := h
+  pasg_sub _ h := h
+  all_keep _ h := h
+  rec_keep y _ h := by
+    rcases h with h | ⟨h1, h2⟩
+    · exact Or.inl h
+    · exact Or.inr ⟨by simp only [PFrame.access]; rw [mem_ins]; exact Or.inr h1, h2⟩
+  rec_new y _ hr ha := by
+    simp only [List.mem_singleton] at hr
+    subst hr
+    exact Or.inr ⟨by simp only [PFrame.access]; rw [mem_ins]; exact Or.inl rfl, ha⟩
+  nl_mono _ h := h
+
+theorem Step.finalize (f : PFrame) : Step f f.finalize [] where
+  asg_sub y h := by simpa [PFrame.finalize, mem_union] using h
+  asg_mono y h := by simp only [PFrame.finalize, mem_union]; exact Or.inl h
+  pasg_sub y h := by simp [PFrame.finalize] at h
+  all_keep y h := by simp only [PFrame.finalize, mem_union]; exact Or.inl h
+  rec_keep y _ h := by
+    rcases h with h | ⟨h1, h2⟩
+    · exact Or.inl (by simp only [PFrame.finalize, mem_union]; exact Or.inl h)
+    · refine Or.inl ?_
+      simp only [PFrame.finalize, mem_union]
+      right
+      rw [List.mem_filter]
+      exact ⟨h1, by simpa using h2⟩
+  rec_new _ _ h := by cases h
+  nl_mono y h := by simp only [PFrame.finalize, mem_union]; exact Or.inl h
+
+mutual
+/-- expressions with inline `if` and calls, without assignment and without function literal -/
+def s0 : Ex → Bool
+  | .lit _ => true
+  | .var _ => true
+  | .add a b => s0 a && s0 b
+  | .sub a b => s0 a && s0 b
+  | .lt a b => s0 a && s0 b
+  | .paren e => s0 e
+  | .ite c t e => s0 c && s0 t && s0 e
+  | .assign _ _ => false
+  | .fn _ _ => false
+  | .call _ args => s0Args args
+def s0Args : List Ex → Bool
+  | [] => true
+  | e :: es => s0 e && s0Args es
+end
+
+mutual
+/-- the names read by an `s0` expression, in order -/
+def reads : Ex → List Name
+  | .lit _ => []
+  | .var x => [x]
+  | .add a b => reads a ++ reads b
+  | .sub a b => reads a ++ reads b
+  | .lt a b => reads a ++ reads b
+  | .paren e => reads e
+  | .ite c t e => reads c ++ (reads t ++ reads e)
+  | .assign _ _ => []
+  | .fn _ _ => []
+  | .call g args => g :: readsArgs args
+def readsArgs : List Ex → List Name
+  | [] => []
+  | e :: es => reads e ++ readsArgs es
+end
+
+theorem Step.weaken {f f' : PFrame} {r r' : List Name} (s : Step f f' r) (h : ∀ y, y ∈ r' → y ∈ r) :
+    Step f f' r' :=
+  ⟨s.asg_sub, s.asg_mono, s.pasg_sub, s.all_keep, s.rec_keep, fun y hp hr ha => s.rec_new y hp (h y hr) ha, s.nl_mono⟩
+
+mutual
+theorem pe_s0 : ∀ (e : Ex) (f : PFrame), s0 e = true → Step f (pe e f) (reads e)
+  | .lit _, f, _ => by simpa [pe, reads] using Step.refl f
+  | .var x, f, _ => by simpa [pe, reads] using Step.access f x
+  | .add a b, f, h => by
+    simp only [s0, Bool.and_eq_true] at h
+    simpa [pe, reads] using (pe_s0 a f h.1).trans (pe_s0 b (pe a f) h.2)
+  | .sub a b, f, h => by
+    simp only [s0, Bool.and_eq_true] at h
+    simpa [pe, reads] using (pe_s0 a f h.1).trans (pe_s0 b (pe a f) h.2)
+  | .lt a b, f, h => by
+    simp only [s0, Bool.and_eq_true] at h
+    simpa [pe, reads] using (pe_s0 a f h.1).trans (pe_s0 b (pe a f) h.2)
+  | .paren e, f, h => by
+    simp only [s0] at h
+    simpa [pe, reads] using pe_s0 e f h
+  | .ite c t e, f, h => by
+    simp only [s0, Bool.and_eq_true] at h
+    have s1 := pe_s0 c f h.1.1
+    have s2 := (pe_s0 t (pe c f) h.1.2).trans (Step.finalize _)
+    have s3 := (pe_s0 e (pe t (pe c f)).finalize h.2).trans (Step.finalize _)
+    have := s1.trans (s2.trans s3)
+    simpa [pe, reads] using this
+  | .assign _ _, _, h => by simp [s0] at h
+  | .fn _ _, _, h => by simp [s0] at h
+  | .call g args, f, h => by
+    simp only [s0] at h
+    have := (Step.access f g).trans (peArgs_s0 args (f.access g) h)
+    simpa [pe, reads] using this
+theorem peArgs_s0 : ∀ (es : List Ex) (f : PFrame), s0Args es = true → Step f (peArgs es f) (readsArgs es)
+  | [], f, _ => by simpa [peArgs, readsArgs] using Step.refl f
+  | e :: es, f, h => by
+    simp only [s0Args, Bool.and_eq_true] at h
+    simpa [peArgs, readsArgs] using (pe_s0 e f h.1).trans (peArgs_s0 es (pe e f) h.2)
+end
+
+mutual
+/-- the declaratively free names of an `s0` expression are reads of unbound names -/
+theorem fv_s0 : ∀ (e : Ex) (bd : List Name), s0 e = true →
+    (fv e bd).2 = bd ∧ ∀ y, y ∈ (fv e bd).1 → (y ∈ reads e ∧ y ∉ bd)
+  | .lit _, bd, _ => by simp [fv, reads]
+  | .var x, bd, _ => by
+    simp only [fv, reads, true_and]
+    intro y hy
+    by_cases hb : bd.contains x = true
+    · rw [if_pos hb] at hy; cases hy
+    · rw [if_neg hb] at hy
+      simp only [List.mem_singleton] at hy
+      subst hy
+      exact ⟨List.mem_singleton.mpr rfl, by simpa using hb⟩
+  | .add a b, bd, h => by
+    simp only [s0, Bool.and_eq_true] at h
+    obtain ⟨a1, a2⟩ := fv_s0 a bd h.1
+    obtain ⟨b1, b2⟩ := fv_s0 b bd h.2
+    simp only [fv, reads]
+    rw [a1] at *
+    refine ⟨b1, fun y hy => ?_⟩
+    rw [mem_union] at hy
+    rcases hy with hy | hy
+    · exact ⟨List.mem_append.mpr (Or.inl (a2 y hy).1), (a2 y hy).2⟩
+    · exact ⟨List.mem_append.mpr (Or.inr (b2 y hy).1), (b2 y hy).2⟩
+  | .sub a b, bd, h => by
+    simp only [s0, Bool.and_eq_true] at h
+    obtain ⟨a1, a2⟩ := fv_s0 a bd h.1
+    obtain ⟨b1, b2⟩ := fv_s0 b bd h.2
+    simp only [fv, reads]
+    rw [a1] at *
+    refine ⟨b1, fun y hy => ?_⟩
+    rw [mem_union] at hy
+    rcases hy with hy | hy
+    · exact ⟨List.mem_append.mpr (Or.inl (a2 y hy).1), (a2 y hy).2⟩
+    · exact ⟨List.mem_append.mpr (Or.inr (b2 y hy).1), (b2 y hy).2⟩
+  | .lt a b, bd, h => by
+    simp only [s0, Bool.and_eq_true] at h
+    obtain ⟨a1, a2⟩ := fv_s0 a bd h.1
+    obtain ⟨b1, b2⟩ := fv_s0 b bd h.2
+    simp only [fv, reads]
+    rw [a1] at *
+    refine ⟨b1, fun y hy => ?_⟩
+    rw [mem_union] at hy
+    rcases hy with hy | hy
+    · exact ⟨List.mem_append.mpr (Or.inl (a2 y hy).1), (a2 y hy).2⟩
+    · exact ⟨List.mem_append.mpr (Or.inr (b2 y hy).1), (b2 y hy).2⟩
+  | .paren e, bd, h => by
+    simp only [s0] at h
+    simpa [fv, reads] using fv_s0 e bd h
+  | .ite c t e, bd, h => by
+    simp only [s0, Bool.and_eq_true] at h
+    obtain ⟨c1, c2⟩ := fv_s0 c bd h.1.1
+    obtain ⟨t1, t2⟩ := fv_s0 t bd h.1.2
+    obtain ⟨e1, e2⟩ := fv_s0 e bd h.2
+    simp only [fv, reads]
+    rw [c1] at *
+    rw [t1] at *
+    refine ⟨e1, fun y hy => ?_⟩
+    rw [mem_union, mem_union] at hy
+    rcases hy with (hy | hy) | hy
+    · exact ⟨List.mem_append.mpr (Or.inl (c2 y hy).1), (c2 y hy).2⟩
+    · exact ⟨List.mem_append.mpr (Or.inr (List.mem_append.mpr (Or.inl (t2 y hy).1))), (t2 y hy).2⟩
+    · exact ⟨List.mem_append.mpr (Or.inr (List.mem_append.mpr (Or.inr (e2 y hy).1))), (e2 y hy).2⟩
+  | .assign _ _, _, h => by simp [s0] at h
+  | .fn _ _, _, h => by simp [s0] at h
+  | .call g args, bd, h => by
+    simp only [s0] at h
+    obtain ⟨a1, a2⟩ := fvArgs_s0 args bd h
+    simp only [fv, reads]
+    refine ⟨a1, fun y hy => ?_⟩
+    rw [mem_union] at hy
+    rcases hy with hy | hy
+    · by_cases hb : bd.contains g = true
+      · rw [if_pos hb] at hy; cases hy
+      · rw [if_neg hb] at hy
+        simp only [List.mem_singleton] at hy
+        subst hy
+        exact ⟨List.mem_cons_self, by simpa using hb⟩
+    · exact ⟨List.mem_cons_of_mem _ (a2 y hy).1, (a2 y hy).2⟩
+theorem fvArgs_s0 : ∀ (es : List Ex) (bd : List Name), s0Args es = true →
+    (fvArgs es bd).2 = bd ∧ ∀ y, y ∈ (fvArgs es bd).1 → (y ∈ readsArgs es ∧ y ∉ bd)
+  | [], bd, _ => by simp [fvArgs, readsArgs]
+  | e :: es, bd, h => by
+    simp only [s0Args, Bool.and_eq_true] at h
+    obtain ⟨a1, a2⟩ := fv_s0 e bd h.1
+    obtain ⟨b1, b2⟩ := fvArgs_s0 es bd h.2
+    simp only [fvArgs, readsArgs]
+    rw [a1] at *
+    refine ⟨b1, fun y hy => ?_⟩
+    rw [mem_union] at hy
+    rcases hy with hy | hy
+    · exact ⟨List.mem_append.mpr (Or.inl (a2 y hy).1), (a2 y hy).2⟩
+    · exact ⟨List.mem_append.mpr (Or.inr (b2 y hy).1), (b2 y hy).2⟩
+end
+
+/-- a line of a body with inline `if`s and calls: an `s0` expression, or `x = e` with `e` an `s0`
+expression that is flat or does not read `x` (reading `x` after a nested list is F-C02-1) -/
+def iteLine : Ex → Bool
+  | .assign x e => s0 e && (flat e || !(reads e).contains x)
+  | e => s0 e
+
+def iteBlock : List Ex → Bool
+  | [] => true
+  | l :: ls => iteLine l && iteBlock ls
+
+theorem fv_assign_s0 (x : Name) (e : Ex) (bd : List Name) (h : s0 e = true) :
+    fv (.assign x e) bd = ((fv e bd).1, ins x (fv e bd).2) := by
+  cases e <;> simp [s0] at h <;> simp [fv]
+
+theorem exprLine_step (e : Ex) (f : PFrame) (bd : List Name) (hs : s0 e = true) (inv : LineInv f bd) :
+    LineInv (pe e f).finalize (fv e bd).2
+    ∧ (∀ y, y ∈ f.nonLocals → y ∈ (pe e f).finalize.nonLocals)
+    ∧ (∀ y, y ∈ (fv e bd).1 → y ∈ (pe e f).finalize.nonLocals) := by
+  obtain ⟨i1, i2, i3⟩ := inv
+  have S := (pe_s0 e f hs).trans (Step.finalize _)
+  obtain ⟨q1, q2⟩ := fv_s0 e bd hs
+  refine ⟨⟨rfl, rfl, fun y => ?_⟩, S.nl_mono, fun y hy => ?_⟩
+  · rw [q1]
+    constructor
+    · intro h
+      rcases S.asg_sub y h with h | h
+      · exact (i3 y).mp h
+      · rw [i2] at h; cases h
+    · intro h; exact S.asg_mono y ((i3 y).mpr h)
+  · obtain ⟨r1, r2⟩ := q2 y hy
+    have := S.rec_new y (by rw [i2]; exact fun h => by cases h) (List.mem_append.mpr (Or.inl r1))
+      (fun h => r2 ((i3 y).mp h))
+    rcases this with h | ⟨h, _⟩
+    · exact h
+    · simp [PFrame.finalize] at h
+
+theorem iteLine_step (l : Ex) (f : PFrame) (bd : List Name) (h : iteLine l = true)
+    (inv : LineInv f bd) :
+    LineInv (pe l f).finalize (fv l bd).2
+    ∧ (∀ y, y ∈ f.nonLocals → y ∈ (pe l f).finalize.nonLocals)
+    ∧ (∀ y, y ∈ (fv l bd).1 → y ∈ (pe l f).finalize.nonLocals) := by
+  cases l with
+  | assign x e =>
+    simp only [iteLine, Bool.and_eq_true, Bool.or_eq_true] at h
+    obtain ⟨hs, hfx⟩ := h
+    rcases hfx with hfl | hnx
+    · exact flatLine_step (.assign x e) f bd hfl inv
+    · obtain ⟨i1, i2, i3⟩ := inv
+      have hnx : x ∉ reads e := by simpa using hnx
+      have hgA : ((f.access x).assignId x).pendAsg = [x] := by
+        simp [PFrame.access, PFrame.assignId, i2, ins]
+      have S := (pe_s0 e ((f.access x).assignId x) hs).trans (Step.finalize _)
+      obtain ⟨q1, q2⟩ := fv_s0 e bd hs
+      rw [fv_assign_s0 x e bd hs]
+      simp only [pe]
+      rw [finalize_idle _ rfl rfl]
+      refine ⟨⟨rfl, rfl, fun y => ?_⟩, fun y hy => S.nl_mono y hy, fun y hy => ?_⟩
+      · rw [q1, mem_ins]
+        constructor
+        · intro hh
+          rcases S.asg_sub y hh with h1 | h1
+          · exact Or.inr ((i3 y).mp h1)
+          · rw [hgA] at h1; exact Or.inl (List.mem_singleton.mp h1)
+        · intro hh
+          have : y ∈ ((f.access x).assignId x).assigned ∨ y ∈ ((f.access x).assignId x).pendAsg := by
+            rcases hh with rfl | hh
+            · right; rw [hgA]; exact List.mem_singleton.mpr rfl
+            · left; exact (i3 y).mpr hh
+          rcases S.all_keep y this with h1 | h1
+          · exact h1
+          · simp [PFrame.finalize] at h1
+      · obtain ⟨r1, r2⟩ := q2 y hy
+        have hyx : y ≠ x := fun hh => hnx (hh ▸ r1)
+        have := S.rec_new y (by rw [hgA]; simpa using hyx) (List.mem_append.mpr (Or.inl r1))
+          (fun hh => r2 ((i3 y).mp hh))
+        rcases this with h1 | ⟨h1, _⟩
+        · exact h1
+        · simp [PFrame.finalize] at h1
+  | lit n => exact exprLine_step _ f bd h inv
+  | var z => exact exprLine_step _ f bd h inv
+  | add a b => exact exprLine_step _ f bd h inv
+  | sub a b => exact exprLine_step _ f bd h inv
+  | lt a b => exact exprLine_step _ f bd h inv
+  | paren e => exact exprLine_step _ f bd h inv
+  | ite c t e => exact exprLine_step _ f bd h inv
+  | call g args => exact exprLine_step _ f bd h inv
+  | fn _ _ => simp [iteLine, s0] at h
+
+theorem iteBlock_complete : ∀ (ls : List Ex) (f : PFrame) (bd : List Name),
+    iteBlock ls = true → LineInv f bd →
+    (∀ y, y ∈ f.nonLocals → y ∈ (peBlock ls f).nonLocals)
+    ∧ (∀ y, y ∈ (fvBlock ls bd).1 → y ∈ (peBlock ls f).nonLocals)
+  | [], f, bd, _, _ => by simp [peBlock, fvBlock]
+  | l :: ls, f, bd, h, inv => by
+    simp only [iteBlock, Bool.and_eq_true] at h
+    obtain ⟨s1, s2, s3⟩ := iteLine_step l f bd h.1 inv
+    obtain ⟨r1, r2⟩ := iteBlock_complete ls (pe l f).finalize (fv l bd).2 h.2 s1
+    simp only [peBlock, fvBlock]
+    refine ⟨fun y hy => r1 y (s2 y hy), fun y hy => ?_⟩
+    rw [mem_union] at hy
+    cases hy with
+    | inl hy => exact r1 y (s3 y hy)
+    | inr hy => exact r2 y hy
+
 end KotoVerif.C02
